@@ -687,6 +687,51 @@ func (sc *Scope) call(x *SExpr) Val {
 		srt := ArrSort("Int", ArrSort("Int", ls[0].Sort))
 		vc.noteSort(n, srt)
 		return Val{Typ: nil, Leaves: []*Term{Sel(vc.sv(sc.state(), n, srt), a.sBase())}}
+	case "distinctRefs", "sumField", "sumFieldR", "memberRef":
+		// recursive spec functions over a slice of references (definitions in contracts/externals.spec)
+		a := arg(0)
+		sl, ok := a.Typ.Underlying().(*types.Slice)
+		if !ok {
+			sfail("%s(slice, ...)", x.Name)
+		}
+		n := "M." + typeKey(sl.Elem())
+		srt := ArrSort("Int", ArrSort("Int", "Int"))
+		vc.noteSort(n, srt)
+		arr := Sel(vc.sv(sc.state(), n, srt), a.sBase())
+		switch x.Name {
+		case "distinctRefs":
+			return boolVal(App("distinctRec", arr, a.sOff(), a.sLen()))
+		case "memberRef":
+			return boolVal(App("memberRec", arr, a.sOff(), a.sLen(), arg(1).T()))
+		case "sumField":
+			return intVal(App("sumFI", arr, a.sOff(), a.sLen(), arg(1).T()))
+		default:
+			return scalar(tFloat64, App("sumFR", arr, a.sOff(), a.sLen(), arg(1).T()))
+		}
+	case "heapOf":
+		// heapOf(T.f): the current value of field f for all objects, as an array (argument for recursive spec functions)
+		if len(x.Args) != 1 || x.Args[0].Kind != SSel || x.Args[0].Args[0].Kind != SIdent {
+			sfail("heapOf(T.f)")
+		}
+		a := x.Args[0]
+		t := sc.resolveType(&TypeExpr{Name: a.Args[0].Name})
+		st, ok := t.Underlying().(*types.Struct)
+		if !ok {
+			sfail("heapOf: %s is not a struct", a.Args[0].Name)
+		}
+		for i := 0; i < st.NumFields(); i++ {
+			if st.Field(i).Name() == a.Name {
+				lv := vc.fieldLV(Zero, t, "."+a.Name, st.Field(i).Type())
+				ls := vc.e.layout(lv.Typ)
+				if len(ls) != 1 {
+					sfail("heapOf: field must be scalar")
+				}
+				n, srt := vc.leafVar(lv, ls[0])
+				vc.noteSort(n, srt)
+				return Val{Typ: nil, Leaves: []*Term{vc.sv(sc.state(), n, srt)}}
+			}
+		}
+		sfail("heapOf: no field %s", a.Name)
 	case "nan": // IEEE NaN test; no real number is NaN
 		a := arg(0)
 		if e.FloatSort == "Real" {
